@@ -126,3 +126,16 @@ class Run:
                  f"violations={nv} known={len(self.known_hit)}")
         shutil.rmtree(self.work, ignore_errors=True)
         return 1 if nv else 0
+
+
+def pmap(fn, items, procs=14, chunk=32):
+    """Order-preserving parallel map over freshly spawned worker processes (fn must be a module-level
+    function of an importable module; items and results must pickle).  Spawned rather than forked:
+    forked children of a harness with a large heap spend their time in copy-on-write faults."""
+    items = list(items)
+    if len(items) < 300:
+        return [fn(x) for x in items]
+    import multiprocessing as mp
+    ctx = mp.get_context("spawn")
+    with ctx.Pool(procs) as pool:
+        return pool.map(fn, items, chunksize=chunk)
